@@ -48,6 +48,11 @@ for _n in (1, 2, 3, 4, 5):
       "String::try_unpack never panics; Ok <=> header readable, declared bytes present and valid UTF-8 by an independent validator; "
       "the unchecked unpack (from_utf8_unchecked) then returns the same bytes", tier="quick" if _n < 5 else "thorough")
 
+H("G-HEX-pack", "pack_huge_length_prefix_rejected_10", "C35 C39 C15 C17", "EVERY 11-byte input starting with a 10-byte varint of value >= 2^63; unwind 13",
+  "String / Vec<u8> try_unpack and value_len report missing data; header + length never wraps", timeout=900)
+H("G-HEX-pack", "pack_huge_length_prefix_rejected_9", "C35 C39 C15 C17", "EVERY 10-byte input starting with a 9-byte varint of value >= 2^56; unwind 13",
+  "as above", tier="thorough")
+
 # G-HEX-rle (rle_validate_encoding vs. the unchecked RleDecoder) was written but never calibrated: every rung, including
 # the 1-byte slab, ran into the 300 s harness timeout (suspected: the Display formatting in
 # `map_err(|e| PackError::InvalidValue(e.to_string()))`). It is not registered; see DESIGN.md section 9.
